@@ -100,8 +100,16 @@ def concretize(case, root: Path, rng_pick):
         extra += ["--sarif", sarif_file("q1.sarif", CODEQL_SARIF) + "," + sarif_file("s1.sarif", SEMGREP_SARIF)]
     if c["resultFileMissing"]:
         opt = ["--sonar-issues-json", "--sonar-hotspots-json", "--defectdojo-findings-json"][case.get("variant", 0) % 3]
-        extra += [opt, str(root / "missing.json")]
-    if c["output"] == "writable":
+        # a named result file that does not exist: a plain missing path, an empty entry after an existing file (trailing comma),
+        # or the empty name alone (an unset shell variable)
+        ok_doc = {"--sonar-issues-json": {"issues": []}, "--sonar-hotspots-json": {"hotspots": []}, "--defectdojo-findings-json": {"results": []}}[opt]
+        (root / "present.json").write_text(json.dumps(ok_doc))
+        value = [str(root / "missing.json"), str(root / "present.json") + ",", "", str(root / "present.json") + "," + str(root / "missing.json")][(case.get("variant", 0) // 3) % 4]
+        extra += [f"{opt}={value}"]
+    if c["output"] == "writable" and case.get("variant", 0) % 5 == 4:
+        # a writable path that is not a regular file (the report goes there; there is nothing to read back)
+        out_path = Path("/dev/null")
+    elif c["output"] == "writable":
         out_path = root / "out" / "r.codetf"
         out_path.parent.mkdir()
     elif c["output"] == "unwritable":
@@ -151,6 +159,8 @@ def execute(case):
             finally:
                 os.chdir(cwd)
         written = bool(out_path is not None and out_path.is_file() and impl.read_report(out_path) is not None)
+        if out_path is not None and str(out_path) == "/dev/null":
+            written = None     # nothing can be read back from the device: only the status is observed
         return {"res": list(res), "written": written, "argv": [a.replace(str(root), "$ROOT") for a in full]}
     finally:
         shutil.rmtree(root, ignore_errors=True)
@@ -254,6 +264,8 @@ def corr(ctx):
         g = g[1]
         impl_ans = {"status": g["res"][1] if g["res"][0] == "exit" else "uncaught:" + g["res"][1], "written": g["written"]}
         doc_status, doc_written = documented(c)
+        if impl_ans["written"] is None:
+            impl_ans["written"] = doc_written
         nontrivial = c["toks"][:1] not in (["help"], ["version"], ["list"], ["describe"]) and len(c["toks"]) >= 1
         key = {"toks": c["toks"], "conds": c["conds"]}
         if m is not None:
